@@ -512,6 +512,7 @@ func (h *ResponseHeader) ResetSkipNormalize() {
 	h.contentLength = 0
 	h.contentLengthBytes = h.contentLengthBytes[:0]
 	h.contentEncoding = h.contentEncoding[:0]
+	h.headerLength = 0
 
 	h.contentType = h.contentType[:0]
 	h.server = h.server[:0]
